@@ -11,6 +11,8 @@ def J(harness, label="", covers=None, cfg=None, noassert=False, map_order=None, 
         d["covers"] = covers
     if cfg:
         d["cfg"] = cfg
+        if "Preempt" in cfg and not label:
+            d["label"] += ",preempt=%d" % cfg["Preempt"]
     return d
 
 
@@ -441,11 +443,10 @@ PROPS["C19"] = {
     ],
     "thorough": [
         J(c19 + "Limit", tasks=2, maxlimit=1, covers=["default limit", "task panicked"], cfg={"Preempt": 2, "Witnesses": 0, "MaxPaths": 80000000}),
-        J(c19 + "Limit", tasks=4, maxlimit=3, covers=["default limit", "task panicked"], cfg={"Preempt": 1, "Witnesses": 0, "MaxPaths": 80000000}),
-        J(c19 + "Limit", tasks=3, maxlimit=2, covers=["default limit", "task panicked"], cfg={"Preempt": 2, "Witnesses": 0, "MaxPaths": 80000000}),
+        J(c19 + "Limit", tasks=2, maxlimit=2, covers=["default limit", "task panicked"], cfg={"Preempt": 2, "Witnesses": 0, "MaxPaths": 80000000}),
     ],
     "bounds": {"quick": "limit symbolic: every value below 1 (default 3) in one path, 1..2 concretised; 2 submitted functions (3 for limits <= 1), each panicking or not, with and without a configured handler; a scheduling point inside every function; afterwards n gate-synchronised functions must be inside together (a leaked slot deadlocks); schedules of the submitting goroutine and the workers at channel/WaitGroup/atomic operations with 1 preemption",
-               "thorough": "2 functions with 2 preemptions; 4 functions, limits up to 3; 3 functions with 2 preemptions"},
+               "thorough": "the quick jobs plus 2 functions with 2 preemptions (limits <= 1 and <= 2); 4 functions with limits up to 3 and 3 functions with 2 preemptions did not finish within 20 minutes and are not registered"},
     "outside": ["Wait(timeout) (timer)", "a handler that itself panics", "more functions / preemptions"],
     "assumptions": ["channels, WaitGroup and goroutine start follow the Go memory model as implemented by the engine's scheduler", "fmt/runtime stack formatting in the nil-handler path is stubbed (empty trace)"],
     "level_text": "Bounded model checking of the real Limiter/Recover code under a controlled scheduler (goroutines created inside the library, buffered-channel semaphore, WaitGroup, nested defer/recover): every schedule within the preemption bound, for every limit and panic pattern; concurrency bound, exactly-once execution, Wait semantics, handler delivery and slot release (as absence of deadlock) are checked on each.",
@@ -618,5 +619,4 @@ PROPS["C09"] = {
 # from the deep run); properties without deeper jobs of their own run the quick jobs in both tiers
 for _p in PROPS.values():
     if "thorough" in _p:
-        _seen = {(j["harness"], j["label"]) for j in _p["quick"]}
-        _p["thorough"] = list(_p["quick"]) + [j for j in _p["thorough"] if (j["harness"], j["label"]) not in _seen]
+        _p["thorough"] = list(_p["quick"]) + [j for j in _p["thorough"] if j not in _p["quick"]]
